@@ -530,6 +530,7 @@ type SpecFunc struct {
 	Name   string
 	Params []string
 	Body   Expr
+	Opaque bool   // pure predicate kept as an uninterpreted symbol with one defining axiom (triggered on applications)
 	Rec    bool   // recursive: uninterpreted + unfolding instances
 	Sort   string // result sort for rec (Int/Bool)
 	Text   string
@@ -547,6 +548,8 @@ type FuncContract struct {
 	Modifies []string
 	Ghosts   []Clause // ghost NAME = expr evaluated at entry
 	Oracle   string   // Go boolean expression for replay
+	Refines  string   // interface-method contract this implementation must satisfy
+	Params   []string // parameter names (interface contracts)
 	Witness  string   // Go function (replay_helpers.go) running known-tricky inputs on the real code
 	Applies  string   // spec predicate that this func(rune) bool computes (links function values to the spec)
 	Dead     []string // source lines expected to be unreachable (defensive code behind an assumed contract)
@@ -564,9 +567,9 @@ type Contracts struct {
 }
 
 var clauseKeywords = map[string]bool{
-	"spec": true, "rec": true, "func": true, "region": true, "lib": true, "iface": true, "requires": true, "ensures": true,
+	"spec": true, "rec": true, "pred": true, "func": true, "region": true, "lib": true, "iface": true, "requires": true, "ensures": true,
 	"loop": true, "returns": true, "modifies": true, "ghost": true, "oracle": true,
-	"const": true, "pure": true, "trusted": true, "assert": true, "assume": true, "deadcode": true, "applies": true, "witness": true, "decreases": true,
+	"const": true, "pure": true, "trusted": true, "assert": true, "assume": true, "deadcode": true, "applies": true, "witness": true, "decreases": true, "refines": true, "params": true,
 }
 
 func loadContracts(paths ...string) (*Contracts, error) {
@@ -582,6 +585,23 @@ func loadContracts(paths ...string) (*Contracts, error) {
 		}
 	}
 	return cs, nil
+}
+
+// anchorText extracts a leading anchor in double quotes or back quotes and returns it with the rest.
+func anchorText(b string) (string, string, bool) {
+	b = strings.TrimSpace(b)
+	if b == "" {
+		return "", "", false
+	}
+	q := b[0]
+	if q != '"' && q != '`' {
+		return "", "", false
+	}
+	end := strings.IndexByte(b[1:], q)
+	if end < 0 {
+		return "", "", false
+	}
+	return b[1 : 1+end], strings.TrimSpace(b[end+2:]), true
 }
 
 func (cs *Contracts) parse(path, data string) error {
@@ -637,7 +657,7 @@ func (cs *Contracts) parse(path, data string) error {
 				return fail(fmt.Errorf("const not constant"))
 			}
 			cs.Consts[strings.TrimSpace(parts[0])] = n
-		case "spec", "rec":
+		case "spec", "rec", "pred":
 			// spec NAME(a, b) = expr ; rec NAME(a, b) Int = expr
 			eqi := strings.Index(body, "=")
 			for eqi >= 0 && (strings.HasPrefix(body[eqi:], "==") || (eqi > 0 && strings.ContainsAny(body[eqi-1:eqi], "=!<>"))) {
@@ -657,13 +677,18 @@ func (cs *Contracts) parse(path, data string) error {
 			if lp < 0 || rp < lp {
 				return fail(fmt.Errorf("bad spec head %q", head))
 			}
-			sf := &SpecFunc{Name: strings.TrimSpace(head[:lp]), Rec: kw == "rec", Text: rc.text}
+			sf := &SpecFunc{Name: strings.TrimSpace(head[:lp]), Rec: kw == "rec", Opaque: kw == "pred", Text: rc.text}
+			if kw == "pred" {
+				sf.Sort = "Bool"
+			}
 			for _, a := range strings.Split(head[lp+1:rp], ",") {
 				if a = strings.TrimSpace(a); a != "" {
 					sf.Params = append(sf.Params, a)
 				}
 			}
-			sf.Sort = strings.TrimSpace(head[rp+1:])
+			if srt := strings.TrimSpace(head[rp+1:]); srt != "" {
+				sf.Sort = srt
+			}
 			if sf.Sort == "" {
 				sf.Sort = "Int"
 			}
@@ -743,6 +768,13 @@ func (cs *Contracts) parse(path, data string) error {
 					return fail(err)
 				}
 				cur.Clauses = append(cur.Clauses, Clause{Kind: "recdec", E: e, Text: body})
+			case "refines":
+				cur.Refines = strings.TrimSpace(body)
+			case "params":
+				b := strings.Trim(body, "() ")
+				for _, a := range strings.Split(b, ",") {
+					cur.Params = append(cur.Params, strings.TrimSpace(a))
+				}
 			case "witness":
 				cur.Witness = strings.TrimSpace(body)
 			case "applies":
@@ -793,16 +825,11 @@ func (cs *Contracts) parse(path, data string) error {
 					if !strings.HasPrefix(b, "at ") {
 						return fail(fmt.Errorf("%s needs an anchor: %s at \"line text\" expr", kw, kw))
 					}
-					b = strings.TrimSpace(b[3:])
-					if !strings.HasPrefix(b, "\"") {
+					at, rest, ok := anchorText(b[3:])
+					if !ok {
 						return fail(fmt.Errorf("bad anchor"))
 					}
-					end := strings.Index(b[1:], "\"")
-					if end < 0 {
-						return fail(fmt.Errorf("bad anchor"))
-					}
-					cl.At = b[1 : 1+end]
-					b = strings.TrimSpace(b[end+2:])
+					cl.At, b = at, rest
 					cl.AtOrd = 1
 					if strings.HasPrefix(b, "#") {
 						fmt.Sscanf(b, "#%d", &cl.AtOrd)
@@ -823,6 +850,18 @@ func (cs *Contracts) parse(path, data string) error {
 						}
 					}
 					b = b[end+1:]
+				}
+				if kw == "ensures" && (strings.HasPrefix(strings.TrimSpace(b), "at \"") || strings.HasPrefix(strings.TrimSpace(b), "at `")) {
+					// ensures [name] at "return statement text" expr : only checked at that return
+					at, rest, ok := anchorText(strings.TrimSpace(b)[3:])
+					if !ok {
+						return fail(fmt.Errorf("bad anchor"))
+					}
+					cl.At, b = at, rest
+					if strings.HasPrefix(b, "#") {
+						fmt.Sscanf(b, "#%d", &cl.AtOrd)
+						b = strings.TrimSpace(b[strings.IndexAny(b, " \t"):])
+					}
 				}
 				e, err := parseExpr(b)
 				if err != nil {
